@@ -1,6 +1,7 @@
 // @id C18.declared_uncertainties
 // @engine B
 // @entry vfh_C18_declared_uncertainties
+// @shared_state_watch
 // @tier Q
 // @reach inverse.tidied
 // @funcs Phreeqc::tidy_inverse; Phreeqc::master_bsearch; Phreeqc::master_bsearch_primary; Phreeqc::phase_bsearch; Phreeqc::elt_list_combine
